@@ -29,6 +29,8 @@ type Param struct {
 	K        Key  `json:"k"`
 	Optional bool `json:"opt,omitempty"`
 	Soft     bool `json:"soft,omitempty"`
+	// Slice: group parameters only; 1 or 2: the Go type is a named slice type (vt.SVt / vt.TVt) instead of []T.
+	Slice int `json:"sl,omitempty"`
 }
 
 func (p Param) String() string {
@@ -38,6 +40,9 @@ func (p Param) String() string {
 	}
 	if p.Soft {
 		s += "~"
+	}
+	if p.Slice > 0 {
+		s += fmt.Sprintf("(named slice %d)", p.Slice)
 	}
 	return s
 }
@@ -49,6 +54,8 @@ type Res struct {
 	Flatten bool `json:"flat,omitempty"`  // group result flattened from a slice of N elements
 	Whole   bool `json:"whole,omitempty"` // decorator result: the whole group as a slice of N
 	N       int  `json:"n,omitempty"`
+	// Slice: Flatten/Whole results only; 1 or 2: the Go type is a named slice type instead of []T.
+	Slice int `json:"sl,omitempty"`
 }
 
 func (r Res) String() string {
@@ -58,6 +65,9 @@ func (r Res) String() string {
 	}
 	if r.Whole {
 		s += fmt.Sprintf("*whole%d", r.N)
+	}
+	if r.Slice > 0 {
+		s += fmt.Sprintf("(named slice %d)", r.Slice)
 	}
 	return s
 }
